@@ -89,7 +89,7 @@ def main():
     # ---- inventories
     invs = []
     def amount_variants(x):
-        out = [("float", float(x))]
+        out = [("float", float(x)), ("symfloat", sympy.Float(float(x)))]
         if float(x) == int(x):
             out += [("int", int(x)), ("np", np.float64(x)), ("rat", sympy.Integer(int(x)))]
         else:
@@ -105,6 +105,8 @@ def main():
                     sp = rng.choice(req["spellings"][k])
                     tag, val = rng.choice(amount_variants(v))
                     if cname == "InventoryHP" and tag == "np":
+                        tag, val = "float", float(v)
+                    if cname == "Inventory" and tag == "symfloat":      # the double-precision class keeps amounts as supplied (known findings F9)
                         tag, val = "float", float(v)
                     cont[sp] = val; tags.append(tag)
                 for dl, d, dc in (datasets[:2] if vi else datasets[:3]):
